@@ -30,6 +30,10 @@ ASSUME = [
 ]
 
 
+def replay_is_kill(replay):
+    return bool(replay) and open(replay).readline().startswith('{"e":"KReset"')
+
+
 def run(pid, tier, tmp, replay):
     t0 = time.time()
     cfg = P[pid]
@@ -63,13 +67,30 @@ def run(pid, tier, tmp, replay):
     n = cfg['n'][tier]
     trace = os.path.join(tmp, 'engine.ndjson')
     args = [trace, vlib.seed(), n, cfg['profile']]
-    if replay:
+    if replay and replay_is_kill(replay):
+        args = [trace, vlib.seed(), 1, cfg['profile']]      # the replay file is an execution of kill_driver (below)
+    elif replay:
         first = json.loads(open(replay).readline())
         args = [trace, first['seed'], 1, first['profile'], first['scn']]
     rc, errlog = vlib.run_driver(cfg['variant'], 'engine_driver', args, tmp, timeout=900)
     if rc != 0:
         raise vlib.Infra('engine_driver exited with %s: %s' % (rc, open(errlog, errors='replace').read()[-1500:]))
     val = vlib.validate_trace('Engine_Trace.tla', 'Engine_Trace.cfg', trace, tmp)
+    kval = None
+    if pid == 'C05':
+        # the delay rule around REAL kill plugins (own post_action_delay, always_continue, a later action stopping the
+        # chain): kill_driver runs them inside the real ruleset; KillAction_Trace's pause bookkeeping validates when
+        # the action chain runs and when it must not
+        vlib.build('plain', ['kill_driver'])
+        ktrace = os.path.join(tmp, 'kill.ndjson')
+        kargs = [ktrace, vlib.seed(), 120 if tier == 'quick' else 2500, 'c05']
+        if replay and replay_is_kill(replay):
+            first = json.loads(open(replay).readline())
+            kargs = [ktrace, first['seed'], 1, first['profile'], first['scn']]
+        krc, kerr = vlib.run_driver('plain', 'kill_driver', kargs, tmp, timeout=900)
+        if krc != 0:
+            raise vlib.Infra('kill_driver exited with %s: %s' % (krc, open(kerr, errors='replace').read()[-1500:]))
+        kval = vlib.validate_trace('KillAction_Trace.tla', 'KillAction_Trace.cfg', ktrace, tmp)
     for t in ths:
         t.join()
     if errs:
@@ -89,12 +110,19 @@ def run(pid, tier, tmp, replay):
         violations.append({'replay': p, 'why': 'stage B: %s event %d of the execution: %s (after %s)' % (
             why, rej['line_in_execution'], rej['first_unmatched'][:300], rej['last_matched'][:200])})
 
+    if kval:
+        for i, rej in enumerate(kval['rejections']):
+            seg = rej.pop('segment')
+            p = vlib.save_replay(pid, 'rejected_kill_%d.ndjson' % i, seg)
+            why = ('invariant %s violated at' % rej['invariant']) if rej['invariant'] else 'no specification step matches'
+            violations.append({'replay': p, 'why': 'stage B (real kill plugin in a ruleset): %s event %d of the execution: %s (after %s)' % (
+                why, rej['line_in_execution'], rej['first_unmatched'][:300], rej['last_matched'][:200])})
     lines = open(trace).read().splitlines()
     sample = [json.loads(x) for x in lines[:1] + [l for l in lines if '"e":"Run"' in l][:6]]
     cov = {
         'states': mc_res['distinct'] + wit_res['states'] + val['states'],
         'transitions': mc_res['states'],
-        'traces_validated_against_impl': val['accepted'],
+        'traces_validated_against_impl': val['accepted'] + (kval['accepted'] if kval else 0),
         'samples': [{'trace_head': sample}],
         'mc_configs': ['MC_%s_%s.cfg' % (pid, tier), cfg['wit'][0], 'Engine_Trace.cfg'],
         'mc_distinct_states': mc_res['distinct'],
@@ -103,6 +131,7 @@ def run(pid, tier, tmp, replay):
         'trace_executions': val['executions'], 'trace_events': val['lines'],
         'trace_rejections': len(val['rejections']),
         'driver_profile': cfg['profile'], 'build_variant': cfg['variant'],
+        'kill_plugin_executions': kval['executions'] if kval else 0, 'kill_plugin_events': kval['lines'] if kval else 0,
         'exhaustive': False,
     }
     vlib.write_evidence(pid, tier, 'model_checking', cov, time.time() - t0, len(violations), ASSUME)
